@@ -606,7 +606,24 @@ pub fn mutate_once(rng: &mut Rng, lines: &mut Vec<String>) -> &'static str {
     let pick_id = |rng: &mut Rng, pool: &Vec<String>| -> String {
         if pool.is_empty() || rng.chance(1, 6) { format!("{}", rng.below(40)) } else { rng.pick(pool).clone() }
     };
-    let kind = rng.below(24);
+    let kind = rng.below(26);
+    if kind >= 24 {
+        // the value operand of an init / next line is replaced by another node of the file
+        let tl: Vec<Vec<String>> = lines.iter().map(|l| toks(l)).collect();
+        let c: Vec<usize> = (0..tl.len()).filter(|i| tl[*i].len() > 4 && (tl[*i][1] == "init" || tl[*i][1] == "next")).collect();
+        let ids: Vec<String> = tl.iter().filter(|t| t.len() > 2 && !matches!(t[1].as_str(), "sort" | "init" | "next" | "output" | "bad" | "constraint")).map(|t| t[0].clone()).collect();
+        if c.is_empty() || ids.is_empty() {
+            return "noop";
+        }
+        let li = *rng.pick(&c);
+        let mut t = tl[li].clone();
+        t[4] = rng.pick(&ids).clone();
+        if rng.chance(1, 6) {
+            t[1] = if t[1] == "init" { "next".to_string() } else { "init".to_string() };
+        }
+        lines[li] = t.join(" ");
+        return "init_next_value";
+    }
     if kind >= 22 {
         return mutate_array_sort(rng, lines);
     }
@@ -1098,7 +1115,12 @@ pub fn edge_template(rng: &mut Rng) -> (Vec<String>, &'static str) {
         19 => (vec![format!("1 sort bitvec {w}"), s("2 input 1"), s("3 input 1"), format!("4 read 1 2 3")], "read_bv"),
         20 => (vec![s("1 sort bitvec 1"), format!("2 sort bitvec {}", w + 1), s("3 input 1"), s("4 input 2"), format!("5 ite 2 {} 4 {}", rng.pick(&["4", "3"]), rng.pick(&["3", "4"]))], "ite_mismatch"),
         21 => (vec![s("1 sort bitvec 1"), format!("2 sort bitvec {}", w + 1), s("3 input 1"), s("4 input 2"), format!("5 {} 1 {} {}", rng.pick(&["implies", "iff", "eq", "neq", "ugt", "ulte", "sgt", "slt"]), rng.pick(&["4", "3"]), rng.pick(&["3", "4"]))], "bool_mismatch"),
-        22 => (vec![format!("1 sort bitvec {w}"), s("2 sort array 1 1"), s("3 state 2 m"), s("4 input 1 d"), format!("5 {} 2 3 {}", rng.pick(&["init", "next"]), rng.pick(&["4", "-4", "3", "-3"]))], "array_init"),
+        22 => {
+            // the array-init shorthand: a bit-vector of the element sort, of another width, negated, an array, or via `next`
+            let wd = rng.pick(&["1", "7"]).to_string();
+            (vec![format!("1 sort bitvec {w}"), s("2 sort array 1 1"), s("3 state 2 m"), s("4 input 1 d"), format!("7 sort bitvec {}", w + 1), s("8 input 7 wide"), s("9 zero 7"),
+                  format!("5 {} 2 3 {}", rng.pick(&["init", "init", "next"]), rng.pick(&["4", "-4", "3", "-3", "8", "9", "-8"])), format!("6 sort array {wd} 1"), s("10 output 3")], "array_init")
+        }
         23 => (vec![format!("1 sort bitvec {w}"), s("2 state 1"), format!("3 {} 1 2 {}", rng.pick(&UNSUPPORTED), rng.pick(&["2", ""]))], "unsupported"),
         24 => (vec![format!("1 sort bitvec {w}"), s("2 state 1 s"), format!("3 {} 1 2 0 better", rng.pick(&["uext", "sext"])), s("4 next 1 2 3"), s("5 output 2 o")], "alias"),
         25 => (vec![s("1 sort bitvec 1"), s("2 state 1 s"), format!("3 {} 1 2 nice$name", rng.pick(&["redor", "redand", "redxor"])), s("4 next 1 2 -3"), s("5 bad 2")], "alias_red"),
